@@ -25,7 +25,7 @@ def main():
             print("PATCH DOES NOT APPLY:", r.stderr[-500:])
             return 2
         # files of checks running at the same time may vanish while the copy is taken (rsync exit 24): not an error
-        r = subprocess.run(["rsync", "-a", "--exclude", ".git", "--exclude", "replay", "--exclude", "__pycache__", "--exclude", ".audit_*", str(VERIF) + "/", str(vcopy) + "/"])
+        r = subprocess.run(["rsync", "-a", "--exclude", ".git", "--exclude", "replay", "--exclude", "__pycache__", "--exclude", ".audit_*", str(os.environ.get("SEED_VERIF_SRC", VERIF)).rstrip("/") + "/", str(vcopy) + "/"])
         if r.returncode not in (0, 24):
             raise SystemExit("rsync failed with status %d" % r.returncode)
         env = dict(os.environ, VERIF_REPO=str(wt))
